@@ -66,9 +66,13 @@ def run_chunks(ctx, scripts, tag, size):
         run_batch(ctx, scripts[k:k + size], tag if len(scripts) <= size else "%s-%d" % (tag, k // size), tlc_timeout=3000)
 
 
-def gen_scripts(ctx, consts, rbs, simulate=None):
+def gen_scripts(ctx, consts, rbs, simulate=None, rng=None):
     cfg = vlib.cfg_variant(ctx, "Gen_Twcc.cfg", consts)
     beh = vlib.generate(ctx, "Gen_Twcc.tla", cfg, simulate=simulate)
+    if simulate and len(beh) > simulate[0]:
+        # in -simulate mode TLC evaluates the Leaf constraint on every successor of the last state of a walk, so each
+        # walk is printed once per alphabet letter; keep a seeded sample of the requested size
+        beh = rng.sample(beh, simulate[0])
     res = []
     for i, b in enumerate(beh):
         res.append({"lvl": "rec", "rb": rbs[i % len(rbs)], "steps": b})
@@ -191,7 +195,7 @@ def icpt_script(rng, n):
     steps = []
     pos = rng.choice([0, 65500, 40000])
     pending = []
-    budget = 250000                                       # keep the whole script well below the 500 ms window
+    budget = 150000                                       # keep the whole script well below the 500 ms window
     for _ in range(n):
         r = rng.random()
         pause = rng.choice([0, 0, 0, 50, 300, 1200, 2500])
@@ -221,6 +225,42 @@ def icpt_script(rng, n):
 # ---------------------------------------------------------------------------------------------------------- run
 
 NEG = "Invariant Satisfiable is violated"
+
+
+def binding_selftest(ctx, variants):
+    """Demonstrates that the trace validator is bound to what the code returned: a trace recorded from the real Recorder
+    is accepted, and each copy with one logged field damaged / one event dropped is rejected by TLC."""
+    sc = {"lvl": "rec", "rb": RB_WRAP, "steps": [
+        {"a": "rec", "w": 65534, "t": 100000}, {"a": "rec", "w": 65535, "t": 100260}, {"a": "rec", "w": 2, "t": 164000},
+        {"a": "build"}, {"a": "rec", "w": 1, "t": 170000}, {"a": "rec", "w": 3, "t": 8400000}, {"a": "build"}]}
+    evs = run_batch(ctx, [sc], "selftest")
+    if evs is None or ctx.violations:
+        return
+    res = {}
+
+    def damaged(name, f):
+        import copy
+        e2 = copy.deepcopy(evs)
+        f(e2)
+        p = ctx.path("selftest-%s.trace" % name)
+        vlib.write_ndjson(p, e2)
+        v = vlib.validate(ctx, "Trace_Twcc.tla", p)
+        res[name] = "rejected at event %d" % v.hw if not v.accepted else "ACCEPTED"
+        if v.accepted:
+            raise vlib.Infra("binding selftest: the trace validator accepted a trace with %s" % name)
+
+    builds = [i for i, e in enumerate(evs) if e["a"] == "build"]
+    allv = [
+        ("delta+2ticks", lambda e: e[builds[0]]["out"][0]["d"].__setitem__(0, e[builds[0]]["out"][0]["d"][0] + 2)),
+        ("dropped-record-event", lambda e: e.pop(2)),
+        ("fbcount+1", lambda e: e[builds[1]]["out"][0].__setitem__("fb", e[builds[1]]["out"][0]["fb"] + 1)),
+        ("statuscount-1", lambda e: e[builds[0]]["out"][0].__setitem__("cnt", e[builds[0]]["out"][0]["cnt"] - 1)),
+        ("reference+1", lambda e: e[builds[1]]["out"][-1].__setitem__("ref", (e[builds[1]]["out"][-1]["ref"] + 1) % 16777216)),
+        ("wirelen+4", lambda e: e[builds[0]]["out"][0].__setitem__("wl", e[builds[0]]["out"][0]["wl"] + 4)),
+    ]
+    for name, f in allv[:variants]:
+        damaged(name, f)
+    ctx.cov["binding_selftest"] = res
 
 
 def run(ctx):
@@ -274,7 +314,7 @@ def run(ctx):
     if q:
         run_batch(ctx, allg, "G")
     else:
-        sims = gen_scripts(ctx, {"L": 40, "WarmBuild": 1, "Base": 65000}, rbs, simulate=(1500, 60))
+        sims = gen_scripts(ctx, {"L": 40, "WarmBuild": 1, "Base": 65000}, rbs, simulate=(3000, 60), rng=rng)
         run_batch(ctx, sims, "G-simulate", tlc_timeout=3000)
 
     # (T) seeded random arrival processes on the Recorder
@@ -303,6 +343,7 @@ def run(ctx):
         ctx.cov["interceptor_builds_with_read_in_flight"] = sum(1 for e in evs if e.get("a") == "build" and e.get("fl"))
         if inc > len(ic) // 2:
             raise vlib.Infra("more than half of the interceptor-level traces were inconclusive (%d of %d)" % (inc, len(ic)))
+    binding_selftest(ctx, 2 if q else 6)
     ctx.assumptions += [
         "the TLA+ module Twcc is the reading of the property: `recorded arrival` = first arrival still in the history; the "
         "history loses entries only by the 2^15 limit or by culling entries older than 500 ms when everything has been reported "
